@@ -99,6 +99,13 @@ pub fn group_of_16(acc: &mut Acc, pattern: usize, variant: usize) {
 /// order), then run `cycles` create-put-read cycles over a rotating set of 3 id
 /// pairs with the remaining groups alive.
 pub fn slot_cycles(acc: &mut Acc, kill: usize, desc: bool, put_first: bool, cycles: usize) {
+    slot_cycles_v(acc, kill, desc, u8::from(put_first), cycles);
+}
+
+/// variant 0: put after bind; 1: put before bind; 2: heap datum put, read, put again (the same
+/// bytes) while ungrouped, then bind, then read
+pub fn slot_cycles_v(acc: &mut Acc, kill: usize, desc: bool, variant: u8, cycles: usize) {
+    let put_first = variant == 1;
     if kill == 0 {
         return; // 14 groups alive: no room for another one (outside the limits)
     }
@@ -121,7 +128,9 @@ pub fn slot_cycles(acc: &mut Acc, kill: usize, desc: bool, put_first: bool, cycl
         let (x, y) = pairs[c % 3];
         ops.push(Op::Add(x));
         ops.push(Op::Add(y));
-        if put_first {
+        if variant == 2 {
+            ops.extend([Op::Put(x, 1), Op::Data(x), Op::Put(x, 1), Op::Bind(x, y, 0)]);
+        } else if put_first {
             ops.push(Op::Put(x, 0));
             ops.push(Op::Bind(x, y, 0));
         } else {
@@ -134,7 +143,7 @@ pub fn slot_cycles(acc: &mut Acc, kill: usize, desc: bool, put_first: bool, cycl
         ops.push(Op::Data(x));
     }
     let alive = 14 - order.len();
-    if run_history::<2>(acc, "C06", &format!("slot table: 14 groups, kill {kill:#016b} {}, then {cycles} cycles ({}) with {alive} groups alive", if desc { "descending" } else { "ascending" }, if put_first { "put before bind" } else { "put after bind" }), 32, &ops) {
+    if run_history::<2>(acc, "C06", &format!("slot table: 14 groups, kill {kill:#016b} {}, then {cycles} cycles ({}) with {alive} groups alive", if desc { "descending" } else { "ascending" }, match variant { 1 => "put before bind", 2 => "heap datum put, read and put again before the bind", _ => "put after bind" }), 32, &ops) {
         acc.nontrivial += 1;
         acc.bump("cycle_runs_completed", 1);
         acc.bump("collections_in_cycles", cycles as u64);
@@ -174,10 +183,10 @@ pub fn run_c06_family(tier: &str) -> Acc {
     });
     // long runs: contiguous patterns for every number k of groups kept alive
     let long = if quick { 150 } else { 300 };
-    let lacc = super::par_cases(14 * 2, |k, acc| {
-        let keep = k / 2; // 0..=13 groups stay alive
+    let lacc = super::par_cases(14 * 3, |k, acc| {
+        let keep = k / 3; // 0..=13 groups stay alive
         let kill = ((1usize << 14) - 1) & !((1usize << keep) - 1);
-        slot_cycles(acc, kill, false, k % 2 == 1, long);
+        slot_cycles_v(acc, kill, false, (k % 3) as u8, long);
         acc.bump("long_runs", 1);
     });
     acc.merge(lacc);
